@@ -110,6 +110,14 @@ pub enum FontLoadError {
     /// The (kerning) groups in kerning.plist fail validation.
     #[error("failed to load (kerning) groups")]
     InvalidGroups(#[source] GroupsValidationError),
+    /// A layer's directory in layercontents.plist is not a plain directory name inside the UFO.
+    #[error("the directory '{path}' of layer '{name}' must be a plain directory name")]
+    InvalidLayerDirectory {
+        /// The layer name.
+        name: String,
+        /// The directory as given in layercontents.plist.
+        path: PathBuf,
+    },
     /// Failed to load a specific layer.
     #[error("failed to load layer '{name}' from '{path}'")]
     Layer {
